@@ -136,23 +136,65 @@ def run(repo):
         raise exlib.ExtractError("capacity assertion of CappedString::from_raw not found in %s" % rel)
     s += "/-- the capacity assertion of `CappedString::from_raw` -/\ndef from_raw_assert : String := \"%s\"\n\n" % m.group(1).replace(" ", "")
 
-    for (impl, fn, nm) in ((r"impl\s+ChunkHeader\b", "read", "chunk_header_read"), (r"impl\s+ChunkHeader\b", "write", "chunk_header_write"),
-                           (r"impl\s+TickMarker\b", "new", "tick_marker_new")):
-        body = _impl_fn_body(src, impl, fn, rel)
-        s += "/-- integer literals of `%s` in %s, in source order -/\n" % (nm, rel)
-        s += "def lits_%s : List Nat := %s\n\n" % (nm, exlib.lean_nat_list(exlib.int_literals(body)))
+    # The comparisons of the codec, normalised so that a behaviour-preserving rewrite gives the same
+    # data: right-hand sides are resolved to numbers (literals, `u8::MAX`, the constants of this file,
+    # width conversions dropped), `x < n` is recorded as `x <= n-1`, `size.try_u8()` counts as
+    # `size <= 255`, the name of the bound delta variable does not matter.
+    cvals = {}
+    for mm in re.finditer(r"\bconst\s+([A-Z_0-9]+)\s*:\s*[a-z0-9]+\s*=", src):
+        try:
+            cvals[mm.group(1)] = exlib.const_expr(src, mm.group(1), rel)
+        except exlib.ExtractError:
+            pass
+
+    def resolve(e, what):
+        e = re.sub(r"\.(u8|u16|u32|i32|usize|assert_u8|assert_u16)\(\)", "", e.strip())
+        e = e.replace("u8::MAX", "255").replace("u16::MAX", "65535")
+        e = re.sub(r"(?<=[0-9])_(?=[0-9])", "", e)
+        e = re.sub(r"\b([A-Z][A-Z_0-9]+)\b", lambda m: str(cvals[m.group(1)]) if m.group(1) in cvals else m.group(0), e)
+        try:
+            return int(eval(e, {"__builtins__": {}}, {}))
+        except Exception:
+            raise exlib.ExtractError("cannot resolve %s (%s) in %s" % (what, e, rel))
+
+    def le_form(op, n, what):
+        if op == "<=":
+            return n
+        if op == "<":
+            return n - 1
+        raise exlib.ExtractError("unexpected comparison %s in %s of %s" % (op, what, rel))
+
     body = _impl_fn_body(src, r"impl\s+ChunkHeader\b", "read", rel)
-    cmps = re.findall(r"if\s+size\s*(<=|<|>=|>)\s*([A-Za-z0-9_:.()]+)", body)
-    s += "/-- the two over-long size-encoding tests of `ChunkHeader::read` -/\ndef read_size_tests : List (String × String) := [%s]\n\n" % ", ".join(
-        '("%s", "%s")' % c for c in cmps)
+    tests = [le_form(op, resolve(rhs, "over-long test"), "ChunkHeader::read")
+             for op, rhs in re.findall(r"if\s+size\s*(<=|<|>=|>)\s*([A-Za-z0-9_:.()]+)", body)]
+    s += "/-- the over-long size-encoding tests of `ChunkHeader::read`, as `size <= n`, in source order -/\n"
+    s += "def read_overlong_le : List Int := [%s]\n\n" % ", ".join(str(t) for t in tests)
     body = _impl_fn_body(src, r"impl\s+ChunkHeader\b", "write", rel)
-    cmps = re.findall(r"if\s+size\s*(<=|<|>=|>)\s*([A-Za-z0-9_:.()]+)", body)
-    s += "/-- the size-encoding branch tests of `ChunkHeader::write` -/\ndef write_size_tests : List (String × String) := [%s]\n\n" % ", ".join(
-        '("%s", "%s")' % c for c in cmps)
+    tests = []
+    for mm in re.finditer(r"if\s+size\s*(<=|<|>=|>)\s*([A-Za-z0-9_:.()]+)\s*\{|if\s+let\s+Some\(\w+\)\s*=\s*size\.try_u8\(\)", body):
+        if mm.group(1):
+            tests.append(le_form(mm.group(1), resolve(mm.group(2), "size branch"), "ChunkHeader::write"))
+        else:
+            tests.append(255)
+    s += "/-- the size-encoding branch tests of `ChunkHeader::write`, as `size <= n`, in source order -/\n"
+    s += "def write_size_le : List Int := [%s]\n\n" % ", ".join(str(t) for t in tests)
+    # which constant goes with which branch of the writer: the flag bytes or-ed in, in source order
+    marks = re.findall(r"kind_flag\s*\|\s*([A-Za-z_][A-Za-z0-9_]*)", body)
+    s += "/-- what `ChunkHeader::write` ors into the kind flag in its three size branches (`-1` = the size itself) -/\n"
+    s += "def write_size_marks : List Int := [%s]\n\n" % ", ".join(
+        "-1" if m.startswith("size") else str(resolve(m, "size mark")) for m in marks)
     body = _impl_fn_body(src, r"impl\s+TickMarker\b", "new", rel)
-    cmps = re.findall(r"assert!\(([^;]*)\);", body) + re.findall(r"if\s+(!keyframe[^{]*)\{", body)
-    s += "/-- the assertion and the inline-delta test of `TickMarker::new` -/\ndef tick_marker_tests : List String := [%s]\n\n" % ", ".join(
-        '"%s"' % c.strip() for c in cmps)
+    asserts = [re.sub(r"\s+", "", a) for a in re.findall(r"assert!\(([^;]*)\);", body)]
+    s += "/-- the assertions of `TickMarker::new` -/\ndef tick_marker_asserts : List String := [%s]\n\n" % ", ".join('"%s"' % a for a in asserts)
+    mm = re.search(r"(!\s*keyframe\s*&&\s*)?(\w+)\s*(<=|<)\s*version\.max_tick_delta\(\)\.i32\(\)\s*(?:([+-])\s*([0-9]+))?", body)
+    if not mm:
+        raise exlib.ExtractError("inline-delta test of TickMarker::new not found in %s" % rel)
+    var = mm.group(2)
+    bound = bool(re.search(r"Some\(%s\)\s*(?:=|if|=>)" % re.escape(var), body)) and "tick.checked_sub(p)" in body.replace(" ", "")
+    off = int(mm.group(5) or 0) * (-1 if mm.group(4) == "-" else 1)
+    s += "/-- the inline-delta test of `TickMarker::new`: (requires `!keyframe`, the compared value is `tick.checked_sub(p)`, `delta <= max_tick_delta + n`) -/\n"
+    s += "def tick_inline_test : Bool × Bool × Int := (%s, %s, %d)\n\n" % (
+        "true" if mm.group(1) else "false", "true" if bound else "false", le_form(mm.group(3), off, "TickMarker::new"))
 
     rel = "demo/src/writer.rs"
     src = exlib.strip_rust_comments(exlib.read(repo, rel))
